@@ -648,6 +648,187 @@ func (x *gen) join(d int) ex {
 	if d < 1 {
 		d = 1
 	}
+	if x.g.Aggregations && x.chance(2, 5, "overlap") {
+		return x.joinOverlap()
+	}
 	l, r := x.side(d-1), x.side(d-1)
 	return x.binvv(l, r)
+}
+
+// ---------------------------------------------------------------------------
+// overlap joins: one side is a NESTED aggregation / join whose outer and inner label lists overlap
+// (by-over-without, by-over-ignoring, without-over-by ...), the join is made on a label L taken from
+// those lists, and the other side is biased to lack L.  After an inner `without(L)` / `ignoring(L)` the
+// nested side lacks L as well, so "neither side carries L" joins - which DO match - are frequent.
+
+// someOf draws a sub-list of pool that contains every label of must.
+func (x *gen) someOf(pool, must []string, label string) []string {
+	out := append([]string{}, must...)
+	for _, l := range pool {
+		if !contains(out, l) && x.chance(1, 3, label+"."+l) {
+			out = append(out, l)
+		}
+	}
+	return out
+}
+
+// aggWith renders an aggregation with a given modifier ("by" | "without" | "") and label list.
+func (x *gen) aggWith(inner ex, mod string, ls []string) ex {
+	op := x.pick(aggOps, "aggop")
+	param := ""
+	switch op {
+	case "count_values":
+		l := x.pick(append([]string{"cv"}, x.g.U.Labels...), "cvlabel")
+		param = quote(l) + ", "
+		if x.g.ExcludeCountValuesWithout && mod == "without" && contains(ls, l) {
+			x.excluded("count-values-without")
+			op, param = "sum", ""
+		}
+	case "quantile":
+		param = "0.5, "
+	case "topk", "bottomk":
+		param = x.pick([]string{"1", "2", "5"}, "k") + ", "
+	}
+	if mod == "" {
+		return ex{op + "(" + param + inner.s + ")", true}
+	}
+	return ex{op + " " + mod + "(" + strings.Join(ls, ", ") + ") (" + param + inner.s + ")", true}
+}
+
+func (x *gen) without1(ls []string, drop string) []string {
+	var out []string
+	for _, l := range ls {
+		if l != drop {
+			out = append(out, l)
+		}
+	}
+	return out
+}
+
+func (x *gen) joinOverlap() ex {
+	g := x.g
+	labels := g.U.Labels
+	L := x.pick(labels, "ovL")
+	others := x.without1(labels, L)
+	M := L
+	if len(others) > 0 {
+		M = x.pick(others, "ovM")
+	}
+	sel := func() ex { return ex{x.selectorCore(0), true} }
+
+	// inner: something that removes L without fixing the label set (or, less often, something else)
+	var inner ex
+	switch x.choose([]prod{{"without", 4}, {"ignoring", 3}, {"by", 1}, {"sel", 1}}, "ovinner") {
+	case "without":
+		inner = x.aggWith(sel(), "without", x.someOf(x.without1(others, M), []string{L}, "ovinw"))
+	case "ignoring":
+		if g.Ignoring && (g.Arith || g.Compare) {
+			op := "+"
+			if g.Arith {
+				op = x.pick(arithOps, "arop")
+			} else {
+				op = x.pick(cmpOps, "cmpop")
+			}
+			inner = ex{sel().s + " " + op + " ignoring(" + strings.Join(x.someOf(x.without1(others, M), []string{L}, "ovini"), ", ") + ") " + sel().s, false}
+		} else {
+			inner = x.aggWith(sel(), "without", []string{L})
+		}
+	case "by":
+		inner = x.aggWith(sel(), "by", x.someOf(others, []string{M}, "ovinb"))
+	default:
+		inner = sel()
+	}
+
+	// nested side: an outer aggregation whose list overlaps the inner one
+	var nested ex
+	switch x.choose([]prod{{"by", 5}, {"without", 2}, {"fn", 1}, {"none", 1}}, "ovouter") {
+	case "by":
+		must := []string{L, M}
+		if x.chance(1, 4, "ovbyonly") {
+			must = []string{L}
+		}
+		nested = x.aggWith(inner, "by", x.someOf(labels, must, "ovoutb"))
+	case "without":
+		nested = x.aggWith(inner, "without", x.someOf(others, nil, "ovoutw"))
+	case "fn":
+		if g.Funcs {
+			nested = x.fn(ex{x.operand(inner), true})
+		} else {
+			nested = ex{x.operand(inner), true}
+		}
+	default:
+		nested = ex{x.operand(inner), true}
+	}
+
+	// other side: biased to lack L
+	var other ex
+	switch x.choose([]prod{{"agg", 3}, {"without", 3}, {"by", 2}, {"side", 2}}, "ovother") {
+	case "agg":
+		other = x.aggWith(sel(), "", nil)
+	case "without":
+		other = x.aggWith(sel(), "without", x.someOf(others, []string{L}, "ovothw"))
+	case "by":
+		other = x.aggWith(sel(), "by", x.someOf(others, nil, "ovothb"))
+	default:
+		other = x.side(0)
+	}
+
+	l, r := nested, other
+	if x.chance(1, 3, "ovswap") {
+		l, r = other, nested
+	}
+
+	// operator and modifiers: mostly on(L ...)
+	var kinds []string
+	if g.Arith {
+		kinds = append(kinds, "arith", "arith")
+	}
+	if g.Compare {
+		kinds = append(kinds, "cmp")
+	}
+	if g.SetOps {
+		kinds = append(kinds, "and", "unless")
+	}
+	if len(kinds) == 0 {
+		return x.binvv(l, r)
+	}
+	kind := x.pick(kinds, "binkind")
+	op := kind
+	switch kind {
+	case "arith":
+		op = x.pick(arithOps, "arop")
+	case "cmp":
+		op = x.pick(cmpOps, "cmpop")
+		if g.Bool && x.chance(1, 4, "bool") {
+			op += " bool"
+		}
+	}
+	mod := ""
+	switch x.choose([]prod{{"on", 6}, {"random", 2}}, "ovmatch") {
+	case "on":
+		if !g.On {
+			mod = x.matching(l, r, kind == "arith" || kind == "cmp")
+			break
+		}
+		ls := x.someOf(others, []string{L}, "ovon")
+		if g.ExcludeOnBothLack {
+			ls = x.dropBothLack(ls, l, r)
+		}
+		mod = "on(" + strings.Join(ls, ", ") + ") "
+		if kind == "arith" || kind == "cmp" {
+			gopts := []string{"", "", ""}
+			if g.GroupLeft {
+				gopts = append(gopts, "group_left")
+			}
+			if g.GroupRight {
+				gopts = append(gopts, "group_right")
+			}
+			if gm := x.pick(gopts, "group"); gm != "" {
+				mod += gm + "() "
+			}
+		}
+	default:
+		mod = x.matching(l, r, kind == "arith" || kind == "cmp")
+	}
+	return ex{x.operand(l) + " " + op + " " + mod + x.operand(r), false}
 }
